@@ -157,4 +157,24 @@ pub fn run_prop(ctx: &Ctx, sink: &mut Sink) {
         tags.push("binary");
         sink.push(Case { req, imp, tags });
     }
+    // ---- no command at all: the default command is `echo` without arguments; in replace mode nothing is
+    // appended to it, so every non-empty line gives one run of a bare `echo` (an empty line of output)
+    for (opts, input) in [(vec!["I7b7d".to_string()], b"a b\nc\n".to_vec()), (vec!["i".to_string()], b"one\n\ntwo words\n".to_vec()),
+                          (vec!["R-".to_string()], b"x\n".to_vec()), (vec!["I5f".to_string()], b"p q\nr".to_vec()), (vec!["I7b7d".to_string()], b"".to_vec())] {
+        let mut argv: Vec<String> = vec![];
+        for o in &opts { argv.extend(crate::xrun::opt_to_argv(o)); }
+        let out = std::process::Command::new(ctx.bin("xargs")).args(&argv)
+            .stdin(std::process::Stdio::piped()).stdout(std::process::Stdio::piped()).stderr(std::process::Stdio::null())
+            .spawn().and_then(|mut ch| { use std::io::Write; ch.stdin.take().unwrap().write_all(&input)?; ch.wait_with_output() }).expect("run xargs");
+        // one run per line of output: `echo` followed by what it was given
+        let text = out.stdout.clone();
+        let mut runs: Vec<String> = vec![];
+        for l in text.split(|b| *b == b'\n') {
+            runs.push(if l.is_empty() { crate::wire::hex(b"echo") } else { format!("{},{}", crate::wire::hex(b"echo"), crate::wire::hex(l)) });
+        }
+        runs.pop(); // the piece after the final newline
+        let imp = format!("st={} {}", crate::recorder::status_code(out.status), if runs.is_empty() { ".".to_string() } else { runs.join(";") });
+        let req = format!("xargs-run {} {} {} . {}", crate::wire::list(&opts), crate::wire::hex(b"echo"), if input.is_empty() { "-".to_string() } else { crate::wire::hex(&input) }, 1usize << 40);
+        sink.push(Case { req, imp, tags: vec!["default-command", "binary", "nt"] });
+    }
 }
